@@ -4,13 +4,16 @@ sys.path.insert(0, os.path.dirname(os.path.dirname(os.path.abspath(__file__))))
 import vlib
 
 PID = "C12"
-LEAN_MODULES = ["QbiceVerif.Props.C12"]
+LEAN_MODULES = ["QbiceVerif.Props.C12", "QbiceVerif.Props.C12Nested", "QbiceVerif.Props.NonVacuity.C12"]
 DRIVER = "drv_codec"
 HARNESS_BIN = "codec"
 HARNESS_FEATURES = "extras"
 PARTIAL = [
-    "interned_roundtrip covers structures whose encoding is a flat stream of plain parts and handles (vectors, "
-    "tuples, options of handles ...); a handle whose inner value itself contains handles is not modelled",
+    "interned_roundtrip_nested (handles nested inside handle payloads to any depth, DAG sharing, recursive types) covers "
+    "payloads built from handle-free C12 types, handles, Vec-like sequences, Option, tuples/structs and enums; not "
+    "modelled inside the nested universe: skipped fields, maps/sets/arrays/Result/Bound *around* handles (their "
+    "handle-free instances are covered by decode_encode), and decoding under hash collisions (the flat interned_roundtrip "
+    "ops compare both sides under a 2-bit hasher; the nested ops then compare the encoder only)",
     "decode_encode_asis_partial / back_to_back_asis_partial / bitvec_asis_counterexample* / asis_full_statement_false "
     "are historical: they describe the decoder before /repo commit e089897 (finding F7, fixed); decode_encode and "
     "back_to_back (no side condition) are the statements about the code as it is now",
@@ -20,7 +23,17 @@ ASSUMPTIONS = [
     "interned_roundtrip: distinct values of one type occurring in the structure (and in the decoder-side interner) "
     "have distinct 128-bit hashes — explicit hypothesis `hinj`; the correspondence also runs a 2-bit hasher where "
     "it fails and checks that model and code then go wrong in the same way",
-    "interned handles decoded from one structure stay alive while it is decoded (no weak reference dies in between)",
+    "interned handles decoded from one structure stay alive while it is decoded (no weak reference dies in between); for "
+    "nested handles this includes: a value that is alive in the decoder-side interner holds inner handles that were "
+    "interned through the same interner (hypothesis `IOk`: every live entry is canonical) — with an inner handle made by "
+    "`Interned::new_duplicating` the freshly decoded inner allocation is dropped together with the decoded payload when "
+    "`intern` returns the live outer value, and a later reference to it misses (`expect` panics): finding F61, reproduced on "
+    "every run by the harness probe `nested_boundary_probe`, fix proposal fixes/F61-decode-keeps-decoded-handles-alive.diff",
+    "interned_roundtrip_nested: same no-collision hypothesis as the flat theorem (`hinj`, over every handle payload at "
+    "every depth and everything alive in the decoder-side interner); it is also what excludes a reference to a handle "
+    "whose payload is still being decoded (the seen set gets the id BEFORE the payload, the interner AFTER it)",
+    "the decoder's recursion is on fuel (types may be recursive): `v.need` (size of the value as a tree) units are "
+    "proved sufficient; the driver runs with 10^6",
     "Rust's `<<`, arithmetic `>>`, `^`, `&` and unary minus on iN/uN are Lean's BitVec operations (zigzag_bit_trick "
     "proves the bit trick equal to the arithmetic zigzag of the model for every width; the correspondence re-checks "
     "it exhaustively at 16 bits and at the zigzag boundaries of 32/64/128 bits)",
@@ -31,6 +44,10 @@ TRUSTED_EXTRA = [
     "`Duration::new` carry/overflow, `to_le_bytes`), the `bitvec` crate (`as_raw_slice`, `Write for BitVec` = "
     "byte-wise `store_be`, `truncate` keeps dead bits), hash-map iteration order (a map is the sequence of its "
     "entries in the order the encoder met them)",
+    "nested handles: stable type ids are abstract numbers in the model (NNode=0, NExpr=1, str=2, String=3, "
+    "[Interned<NNode>]=4 in the harness); that different Rust types have different STABLE_TYPE_IDs is C14; the hash of a "
+    "payload is supplied by the harness per handle (the real `hash_128`), the model only needs it to be a function of "
+    "(type id, payload)",
     "outside the model: io::Write failures, allocation failure of `Vec::with_capacity(len)` for absurd decoded "
     "lengths (the harness refuses to feed such streams to the real decoder and counts them: guard_skipped), "
     "non-UTF-8 paths (encode refuses)",
